@@ -1,6 +1,6 @@
 //! C15 — wire and storage encodings round-trip losslessly and hashes commit to content.
 //!
-//! Three streams (`opts.extra[0]`): `mol` (default), `json`, `hash`.
+//! Four streams (`opts.extra[0]`): `mol` (default), `json`, `hash`, `view` (c15_view.rs, c15_term.rs).
 //!
 //! Protocol (model side: lean/CkbVerif/Driver/C15.lean)
 //!   enc <Type> <val>          -> <hex>             REAL builder (`T::new_builder()…build()`) vs model `encode`
@@ -28,6 +28,10 @@ use std::panic::{AssertUnwindSafe, catch_unwind};
 
 #[path = "c15_gen.rs"]
 pub mod glue;
+#[path = "c15_term.rs"]
+pub mod term;
+#[path = "c15_view.rs"]
+pub mod view;
 
 #[derive(Clone, Copy, Debug)]
 pub enum K {
@@ -847,6 +851,226 @@ fn json_struct_case(out: &mut Out, t: &Table, rng: &mut Rng, name: &str) {
     }
 }
 
+/// Block / BlockView / BlockTemplate ↔ JSON on explicitly shaped blocks: extension absent vs
+/// present-but-empty vs non-empty, uncles WITH proposals, 0..n transactions.  Field-level oracles
+/// (the struct-level field maps of util/jsonrpc-types/src/{blockchain,block_template}.rs are not
+/// modelled in Lean: this is their tie).
+fn json_block_case(out: &mut Out, t: &Table, rng: &mut Rng) {
+    let ext: Option<Vec<u8>> = match rng.below(4) {
+        0 => None,
+        1 => Some(vec![]),
+        2 => Some(vec![rng.next() as u8]),
+        _ => {
+            let n = *rng.pick(&[2usize, 32, 96, 208]);
+            Some((0..n).map(|_| rng.next() as u8).collect())
+        }
+    };
+    let n_unc = rng.below(4) as usize;
+    let uncles: Vec<packed::UncleBlock> = (0..n_unc)
+        .map(|_| {
+            let h: packed::Header = gen_packed(t, rng, "Header", 300);
+            let np = rng.below(4) as usize;
+            let ps: Vec<packed::ProposalShortId> = (0..np).map(|_| gen_packed(t, rng, "ProposalShortId", 20)).collect();
+            packed::UncleBlock::new_builder().header(h).proposals(ps).build()
+        })
+        .collect();
+    let n_tx = *rng.pick(&[0usize, 1, 1, 2, 3, 5]);
+    let txs: Vec<packed::Transaction> = (0..n_tx)
+        .map(|_| {
+            let v = {
+                let mut g = Gen { t, rng, budget: 250, mode: ByteMode::JsonValid, big: false };
+                g.val("Transaction", None)
+            };
+            packed::Transaction::from_slice(&glue::encode("Transaction", &v).unwrap()).unwrap()
+        })
+        .collect();
+    let n_p = rng.below(4) as usize;
+    let props: Vec<packed::ProposalShortId> = (0..n_p).map(|_| gen_packed(t, rng, "ProposalShortId", 20)).collect();
+    let header: packed::Header = gen_packed(t, rng, "Header", 300);
+    let blk: packed::Block = match &ext {
+        None => packed::Block::new_builder().header(header.clone()).uncles(uncles.clone()).transactions(txs.clone()).proposals(props.clone()).build(),
+        Some(e) => packed::BlockV1::new_builder()
+            .header(header.clone())
+            .uncles(uncles.clone())
+            .transactions(txs.clone())
+            .proposals(props.clone())
+            .extension(e.as_slice())
+            .build()
+            .as_v0(),
+    };
+    let kind = match &ext {
+        None => "absent",
+        Some(e) if e.is_empty() => "empty",
+        Some(_) => "nonempty",
+    };
+    out.count(&format!("json-block-ext-{}", kind));
+    let same_parts = |b: &packed::Block| -> Vec<&'static str> {
+        let mut bad = vec![];
+        if b.header().as_slice() != header.as_slice() {
+            bad.push("header");
+        }
+        if b.uncles().as_slice() != blk.uncles().as_slice() {
+            bad.push("uncles");
+        }
+        if b.transactions().as_slice() != blk.transactions().as_slice() {
+            bad.push("transactions");
+        }
+        if b.proposals().as_slice() != blk.proposals().as_slice() {
+            bad.push("proposals");
+        }
+        if b.extension().map(|e| e.raw_data().to_vec()) != ext {
+            bad.push("extension");
+        }
+        bad
+    };
+    let r = catch_unwind(AssertUnwindSafe(|| {
+        let mut fails: Vec<(String, String)> = vec![];
+        // (a) packed::Block -> json::Block -> text -> json::Block -> packed::Block
+        let j: json::Block = blk.clone().into();
+        let s = serde_json::to_string(&j).unwrap();
+        let has_key = s.contains("\"extension\"");
+        if has_key != ext.is_some() || j.extension.as_ref().map(|e| e.as_bytes().to_vec()) != ext {
+            fails.push(("json-block-extension-field".into(), format!("extension {:?} shown as {:?} in {}", ext.as_ref().map(|e| hex(e)), j.extension, kind)));
+        }
+        if j.uncles.len() != uncles.len() || j.uncles.iter().zip(&uncles).any(|(ju, u)| ju.proposals.len() != u.proposals().len()) {
+            fails.push(("json-block-uncle-proposals".into(), "uncle proposals lost in packed -> json".into()));
+        }
+        let j2: json::Block = serde_json::from_str(&s).unwrap();
+        let back: packed::Block = j2.into();
+        for part in same_parts(&back) {
+            fails.push((format!("json-identity-block-{}", part), format!("packed->json->packed changed {} (extension {})", part, kind)));
+        }
+        if back.as_slice() != blk.as_slice() {
+            fails.push(("json-identity".into(), format!("Block packed->json->packed changed the bytes (extension {}): {}", kind, hex(blk.as_slice()))));
+        }
+        // (b) core::BlockView -> json::BlockView -> text -> json::BlockView -> core::BlockView
+        let view = blk.clone().into_view();
+        let mut d = term::Dict::new();
+        let f = term::recompute(&mut d, &view.data());
+        let jv: json::BlockView = view.clone().into();
+        if jv.header.hash.as_bytes() != &b2(view.data().header().as_slice())[..] {
+            fails.push(("json-blockview-header-hash".into(), "BlockView json header.hash differs from blake2b(header)".into()));
+        }
+        if jv.transactions.len() != txs.len() || jv.transactions.iter().zip(&f.tx_hashes).any(|(jt, h)| jt.hash.as_bytes() != &h[..]) {
+            fails.push(("json-blockview-tx-hash".into(), "BlockView json transactions[i].hash differs from blake2b(raw)".into()));
+        }
+        if jv.uncles.len() != uncles.len()
+            || jv.uncles.iter().zip(&f.uncle_hashes).any(|(ju, h)| ju.header.hash.as_bytes() != &h[..])
+            || jv.uncles.iter().zip(&uncles).any(|(ju, u)| {
+                ju.proposals.len() != u.proposals().len() || ju.proposals.iter().zip(u.proposals().into_iter()).any(|(a, b)| packed::ProposalShortId::from(a.clone()).as_slice() != b.as_slice())
+            })
+        {
+            fails.push(("json-blockview-uncles".into(), "BlockView json uncles (hash / proposals) differ from the block".into()));
+        }
+        if jv.extension.as_ref().map(|e| e.as_bytes().to_vec()) != ext {
+            fails.push(("json-blockview-extension-field".into(), format!("BlockView json extension differs (extension {})", kind)));
+        }
+        let sv = serde_json::to_string(&jv).unwrap();
+        let jv2: json::BlockView = serde_json::from_str(&sv).unwrap();
+        if serde_json::to_string(&jv2).unwrap() != sv {
+            fails.push(("json-serde".into(), "BlockView serde round trip changed the text".into()));
+        }
+        let back: ckb_types::core::BlockView = jv2.into();
+        if back.data().as_slice() != view.data().as_slice() || back.hash() != view.hash() {
+            fails.push(("json-identity".into(), format!("BlockView core->json->core changed the block (extension {}): {}", kind, hex(blk.as_slice()))));
+        }
+        if back.extension().map(|e| e.raw_data().to_vec()) != ext {
+            fails.push(("json-identity-block-extension".into(), format!("BlockView core->json->core changed the extension ({})", kind)));
+        }
+        // (c) BlockTemplate -> packed::Block (reset_header) ; the cellbase is the first transaction
+        let cellbase: packed::Transaction = {
+            let v = {
+                let mut g = Gen { t, rng, budget: 200, mode: ByteMode::JsonValid, big: false };
+                g.val("Transaction", None)
+            };
+            packed::Transaction::from_slice(&glue::encode("Transaction", &v).unwrap()).unwrap()
+        };
+        let raw = header.raw();
+        let h256 = |b: &[u8]| ckb_types::H256::from_slice(b).unwrap();
+        let tpl = json::BlockTemplate {
+            version: raw.version().into(),
+            compact_target: raw.compact_target().into(),
+            current_time: raw.timestamp().into(),
+            number: raw.number().into(),
+            epoch: raw.epoch().into(),
+            parent_hash: h256(raw.parent_hash().as_slice()),
+            cycles_limit: 70_000_000_000u64.into(),
+            bytes_limit: 597_000u64.into(),
+            uncles_count_limit: 2u64.into(),
+            uncles: uncles
+                .iter()
+                .map(|u| json::UncleTemplate {
+                    hash: h256(&b2(u.header().as_slice())),
+                    required: false,
+                    proposals: u.proposals().into_iter().map(Into::into).collect(),
+                    header: u.header().into(),
+                })
+                .collect(),
+            transactions: txs
+                .iter()
+                .map(|x| json::TransactionTemplate { hash: h256(&b2(x.raw().as_slice())), required: false, cycles: None, depends: None, data: x.clone().into() })
+                .collect(),
+            proposals: props.iter().cloned().map(Into::into).collect(),
+            cellbase: json::CellbaseTemplate { hash: h256(&b2(cellbase.raw().as_slice())), cycles: None, data: cellbase.clone().into() },
+            work_id: 7u64.into(),
+            dao: raw.dao().into(),
+            extension: ext.clone().map(json::JsonBytes::from_vec),
+        };
+        let st = serde_json::to_string(&tpl).unwrap();
+        let tpl2: json::BlockTemplate = serde_json::from_str(&st).unwrap();
+        if serde_json::to_string(&tpl2).unwrap() != st || tpl2 != tpl {
+            fails.push(("json-serde".into(), "BlockTemplate serde round trip changed the value".into()));
+        }
+        if tpl2.extension.as_ref().map(|e| e.as_bytes().to_vec()) != ext {
+            fails.push(("json-template-extension-field".into(), format!("BlockTemplate serde changed the extension ({})", kind)));
+        }
+        let tb: packed::Block = tpl2.into();
+        let mut exp_txs = vec![cellbase.clone()];
+        exp_txs.extend(txs.iter().cloned());
+        let exp_txs: packed::TransactionVec = exp_txs.into();
+        let r2 = tb.header().raw();
+        if tb.transactions().as_slice() != exp_txs.as_slice() {
+            fails.push(("json-template-transactions".into(), "BlockTemplate -> Block: transactions are not [cellbase] ++ transactions".into()));
+        }
+        if tb.uncles().as_slice() != blk.uncles().as_slice() {
+            fails.push(("json-template-uncles".into(), "BlockTemplate -> Block: uncles (header / proposals) differ".into()));
+        }
+        if tb.proposals().as_slice() != blk.proposals().as_slice() {
+            fails.push(("json-template-proposals".into(), "BlockTemplate -> Block: proposals differ".into()));
+        }
+        if tb.extension().map(|e| e.raw_data().to_vec()) != ext {
+            fails.push(("json-template-extension".into(), format!("BlockTemplate -> Block: extension differs ({})", kind)));
+        }
+        if r2.version().as_slice() != raw.version().as_slice()
+            || r2.compact_target().as_slice() != raw.compact_target().as_slice()
+            || r2.timestamp().as_slice() != raw.timestamp().as_slice()
+            || r2.number().as_slice() != raw.number().as_slice()
+            || r2.epoch().as_slice() != raw.epoch().as_slice()
+            || r2.parent_hash().as_slice() != raw.parent_hash().as_slice()
+            || r2.dao().as_slice() != raw.dao().as_slice()
+            || tb.header().nonce().as_slice() != &[0u8; 16][..]
+        {
+            fails.push(("json-template-header".into(), "BlockTemplate -> Block: a header field differs from the template".into()));
+        }
+        let mut d2 = term::Dict::new();
+        let f2 = term::recompute(&mut d2, &tb);
+        if r2.transactions_root().as_slice() != &f2.transactions_root[..] || r2.proposals_hash().as_slice() != &f2.proposals_hash[..] || r2.extra_hash().as_slice() != &f2.extra_hash[..] {
+            fails.push(("json-template-reset".into(), format!("BlockTemplate -> Block: header commitments differ from the recomputation over the body ({})", kind)));
+        }
+        fails
+    }));
+    match r {
+        Ok(fails) => {
+            for (c, d) in fails {
+                out.oracle_fail(&c, &d);
+            }
+            out.count("json-block-shaped");
+            out.count("json-BlockTemplate");
+        }
+        Err(e) => out.oracle_fail("json-panic", &format!("shaped block {} bytes={}", panic_text(e), hex(blk.as_slice()))),
+    }
+}
+
 fn json_uint_ops(out: &mut Out, rng: &mut Rng) {
     for bits in [32u32, 64, 128] {
         let max: u128 = if bits == 128 { u128::MAX } else { (1u128 << bits) - 1 };
@@ -953,6 +1177,9 @@ fn run_json(opts: &Opts, out: &mut Out) {
         }
         for n in ["Script", "OutPoint", "CellInput", "CellOutput", "CellDep", "Transaction", "Header", "UncleBlock", "Block", "BlockV1"] {
             json_struct_case(out, &t, &mut rng, n);
+        }
+        for _ in 0..4 {
+            json_block_case(out, &t, &mut rng);
         }
         // keep the line protocol non-empty for every case
         let n = rng.next() & 0xffff_ffff;
@@ -1227,6 +1454,7 @@ fn replay(opts: &Opts, out: &mut Out, path: &std::path::Path) {
                     None => "err".into(),
                 });
             }
+            "cbmt" | "vblk" | "vpath" => view::replay_line(out, &ts),
             other => panic!("C15 replay: unknown op {other}"),
         }
     }
@@ -1263,8 +1491,21 @@ pub fn run(opts: &Opts) {
             "mol" => run_mol(opts, &mut out),
             "json" => run_json(opts, &mut out),
             "hash" => run_hash(opts, &mut out),
+            "view" => view::run_view(opts, &mut out),
+            // development aid: only the `vpath` ops of the view stream, every path on every block
+            "vpath-test" => {
+                let t = Table::new();
+                let mut rng = Rng::new(opts.seed ^ 0x7670);
+                for _ in 0..200 * opts.scale {
+                    out.begin_case("vpath");
+                    let blk = view::gen_block(&t, &mut rng);
+                    for s in 0..8 {
+                        term::vpath_op(&mut out, term::vpath_choice(s, &blk), &blk);
+                    }
+                }
+            }
             other => panic!("C15: unknown stream {other}"),
         }
     }
-    out.finish("mol: a case is one generated value of one declared molecule type (all ~190 types, main consensus/protocol types repeatedly), fingerprint type:min(encoded length,64); json: one round over the ten JSON-carried consensus types; hash: one transaction+header+block triple, fingerprint (#txs,#uncles)");
+    out.finish("mol: a case is one generated value of one declared molecule type (all ~190 types, main consensus/protocol types repeatedly), fingerprint type:min(encoded length,64); json: one round over the ten JSON-carried consensus types; hash: one transaction+header+block triple, fingerprint (#txs,#uncles); view: one base block with every view accessor and the commitment sweep over every construction path, fingerprint (min(#txs,6),min(#uncles,3),min(#proposals,3))");
 }
